@@ -1241,8 +1241,8 @@ impl Property for C20 {
     }
     fn budget(&self, tier: Tier) -> (u32, usize) {
         match tier {
-            Tier::Quick => (60_000, 8),
-            Tier::Thorough => (1_000_000, 16),
+            Tier::Quick => (300_000, 8),
+            Tier::Thorough => (8_000_000, 16),
         }
     }
     fn run(&self, case: &C20Case) -> Report {
